@@ -163,16 +163,25 @@ def elementwise(fn, a, b, kind, lineno=None, what="elementwise"):
     return SArr.fresh(b.length, lambda i: fn(a, fb(i)), kind, b.enc)
 
 
+def _is1(x):
+    x = conc(x)
+    return isinstance(x, int) and x == 1
+
+
 def elementwise2(fn, a, b, kind, lineno, what):
+    if isinstance(a, SArr2) and isinstance(b, SArr2) and _is1(b.cols) and not _is1(a.cols):
+        same_len(a.rows, b.rows, what + ".rows", lineno)
+        fa, fb = a.snapshot2(), b.snapshot2()
+        return SArr2.fresh(a.rows, a.cols, lambda i, j: fn(fa(i, j), fb(i, 0)), kind, a.enc)
     if isinstance(a, SArr2) and isinstance(b, SArr2):
         same_len(a.rows, b.rows, what + ".rows", lineno)
         same_len(a.cols, b.cols, what + ".cols", lineno)
         fa, fb = a.snapshot2(), b.snapshot2()
         return SArr2.fresh(a.rows, a.cols, lambda i, j: fn(fa(i, j), fb(i, j)), kind, a.enc)
-    if isinstance(a, SArr2) and isinstance(b, SArr) and conc(a.cols) == 1 and conc(b.length) != 1:
+    if isinstance(a, SArr2) and isinstance(b, SArr) and _is1(a.cols) and not _is1(b.length):
         fa, fb = a.snapshot2(), b.snapshot()
         return SArr2.fresh(a.rows, b.length, lambda i, j: fn(fa(i, 0), fb(j)), kind, a.enc)
-    if isinstance(a, SArr) and isinstance(b, SArr2) and conc(b.cols) == 1 and conc(a.length) != 1:
+    if isinstance(a, SArr) and isinstance(b, SArr2) and _is1(b.cols) and not _is1(a.length):
         fa, fb = a.snapshot(), b.snapshot2()
         return SArr2.fresh(b.rows, a.length, lambda i, j: fn(fa(j), fb(i, 0)), kind, b.enc)
     if isinstance(a, SArr2) and isinstance(b, SArr):
@@ -425,28 +434,30 @@ def flatnonzero(mask, lineno=None):
 # prefix sums
 
 def cumsum(a, lineno=None):
-    """np.cumsum: S(0)=a(0), S(i)=S(i-1)+a(i)  (recurrence, instantiated on demand). EXACT.
-    Additional derived fact (proved once by induction in pyvc/lemmas.py): if every a(i) >= 0 then
-    S is monotone."""
-    use("cumsum (recurrence)")
-    c = ctx()
+    """np.cumsum(a)[t] = C(t+1) where C is the exclusive prefix-sum function of a (C(0)=0, C(i+1)=C(i)+a(i)). EXACT."""
+    use("cumsum (prefix-sum recurrence)")
     fa = a.snapshot()
-    S = c.fresh_fun("cumsum")
     n = a.length
-    c.assume(Forall(lambda t: Implies(in_range(t, n), S(t) == Ite(t == 0, I(fa(0)), S(t - 1) + I(fa(t)))),
-                    triggers=[S], name="cumsum.rec"))
-    r = SArr.fresh(n, lambda t: S(t), "int")
-    r.cumsum_of = (fa, S, n)
+    C = exclusive_prefix(fa, n)
+    r = SArr.fresh(n, lambda t: C(I(t) + 1), "int")
+    r.prefix = (C, fa, n)
     return r
 
 
 def exclusive_prefix(fa, n):
-    """C(0)=0, C(i+1)=C(i)+a(i) for 0<=i<n: the exclusive prefix-sum function of a."""
+    """C(0)=0, C(i+1)=C(i)+a(i) for 0<=i<n: the exclusive prefix-sum function of a.  One function per (array content,
+    length): np.cumsum, RaggedArray row offsets, sums ... of the SAME array share it."""
     c = ctx()
+    cache = c.ghost.setdefault("xsum_cache", {})
+    nz = z3.simplify(I(n))
+    key = (id(fa), nz.get_id())
+    if key in cache:
+        return cache[key][0]
     C = c.fresh_fun("xsum")
     c.assume(C(0) == 0)
     c.assume(Forall(lambda t: Implies(And(t >= 1, t <= I(n)), C(t) == C(t - 1) + I(fa(t - 1))),
                     triggers=[C], name="xsum.rec"))
+    cache[key] = (C, fa, nz)
     return C
 
 
